@@ -103,7 +103,9 @@ func c06CaretCheck(text string, lines []string, d diags.Diagnostic, window []c06
 				return fmt.Sprintf("caret line %q does not end with the message", cl), runs > 1, true
 			}
 			got := cl[digits+3 : len(cl)-len(suffix)]
-			if got != string(marks) {
+			// blanks after the last caret are immaterial (InjectDiagnostics pads up to the line-break position when the
+			// window ends with the break of a line that has trailing blanks)
+			if strings.TrimRight(got, " ") != strings.TrimRight(string(marks), " ") {
 				return fmt.Sprintf("carets under line %d are %q, want %q (source line %q)", last, got, string(marks), line), runs > 1, true
 			}
 			return "", runs > 1, true
@@ -170,6 +172,8 @@ type c06NodeObs struct {
 	id                       int
 	value                    string
 	line, col                int
+	block                    bool   // yaml Style has the Literal or Folded bit
+	anchor                   string // yaml Anchor
 	minCol, offLine, offCol  int
 	obs                      diags.PositionRanges
 	panicked                 bool
@@ -181,8 +185,8 @@ func (n c06NodeObs) coq() string {
 	if !n.panicked {
 		obs = "(Some " + coqPrs(n.obs) + ")"
 	}
-	return fmt.Sprintf("{| no_id := %s; no_node := mksn %s %s %s; no_min := %s; no_offl := %s; no_offc := %s; no_obs := %s; no_guard := %s |}",
-		coqN(n.id), coqStr(n.value), coqZ(int64(n.line)), coqZ(int64(n.col)), coqZ(int64(n.minCol)), coqZ(int64(n.offLine)), coqZ(int64(n.offCol)), obs, coqBool(n.guard))
+	return fmt.Sprintf("{| no_id := %s; no_node := mksn %s %s %s %s %s; no_min := %s; no_offl := %s; no_offc := %s; no_obs := %s; no_guard := %s |}",
+		coqN(n.id), coqStr(n.value), coqZ(int64(n.line)), coqZ(int64(n.col)), coqBool(n.block), coqStr(n.anchor), coqZ(int64(n.minCol)), coqZ(int64(n.offLine)), coqZ(int64(n.offCol)), obs, coqBool(n.guard))
 }
 
 func coqDoc(lines []string, nodes []c06NodeObs) string {
@@ -194,14 +198,16 @@ func coqDoc(lines []string, nodes []c06NodeObs) string {
 }
 
 // callNPR runs the real NewPositionRange (+AddOffset) and recovers a panic.
-func callNPR(lines []string, value string, line, col, minCol, offLine, offCol int) (out diags.PositionRanges, panicked bool) {
+func c06IsBlock(st yaml.Style) bool { return st&(yaml.LiteralStyle|yaml.FoldedStyle) != 0 }
+
+func callNPR(lines []string, value string, line, col int, style yaml.Style, anchor string, minCol, offLine, offCol int) (out diags.PositionRanges, panicked bool) {
 	defer func() {
 		if e := recover(); e != nil {
 			panicked = true
 			out = nil
 		}
 	}()
-	n := &yaml.Node{Kind: yaml.ScalarNode, Value: value, Line: line, Column: col}
+	n := &yaml.Node{Kind: yaml.ScalarNode, Value: value, Line: line, Column: col, Style: style, Anchor: anchor}
 	out = diags.NewPositionRange(lines, n, minCol)
 	out.AddOffset(offLine, offCol)
 	return out, false
@@ -451,6 +457,12 @@ func c06Oracle(doc c06Doc, rnd *rand.Rand, rep *runReport) c06OracleResult {
 			if len(gf.Classes) == 0 {
 				rep.hist("class:none(in theorem guard)")
 			}
+			for _, st := range gf.Strata {
+				rep.hist("stratum:" + st)
+			}
+			if c06HasMultibytePrefix(gf, lines) {
+				rep.hist("stratum:" + c06SMultibyte)
+			}
 			if gf.Style != "plain" || gf.L1 > gf.L0 {
 				res.nontrivial = true
 			}
@@ -499,6 +511,18 @@ func c06Oracle(doc c06Doc, rnd *rand.Rand, rep *runReport) c06OracleResult {
 				continue
 			}
 			if !spells(rb, value) {
+				// Never excused (theorem C06_positions_spell_prefix, unconditional): unless the one-column fallback was
+				// returned, the positions read back a PREFIX of the value, and none lies in front of the scalar.
+				if len(ps) > 1 {
+					if len(rb) > len(value) || !foldEq(rb, value[:len(rb)]) {
+						failKind(true, gf.Classes, "%s: positions read back %q, which is not even a prefix of the value %q", where, rb, value)
+						continue
+					}
+					if q := ps[0]; q.Line < gf.L0 || (q.Line == gf.L0 && q.Col < gf.C0) {
+						failKind(true, gf.Classes, "%s: position %d:%d lies in front of the scalar (%d:%d); value %q", where, q.Line, q.Col, gf.L0, gf.C0, value)
+						continue
+					}
+				}
 				fail(gf.Classes, "%s: positions read back %q but the value is %q", where, rb, value)
 				continue
 			}
@@ -655,11 +679,14 @@ func c06Oracle(doc c06Doc, rnd *rand.Rand, rep *runReport) c06OracleResult {
 }
 
 
-// c06EffClasses adds the layout classes that depend on the surrounding text: yaml.v3 columns count characters,
-// NewPositionRange indexes bytes, so scalars with non-ASCII bytes before them on their first line (blocks: on the
-// header line) are in class C06-multibyte-prefix.
+// c06EffClasses: the known-finding classes of a field (only the printer-assigned ones are left).
 func c06EffClasses(gf c06Field, lines []string) []string {
-	cs := append([]string{}, gf.Classes...)
+	return append([]string{}, gf.Classes...)
+}
+
+// c06HasMultibytePrefix: non-ASCII bytes before the scalar on its first line (blocks: on the header line);
+// yaml.v3 columns count characters there (stratum, fixed by 9af0d98).
+func c06HasMultibytePrefix(gf c06Field, lines []string) bool {
 	hl := gf.L0
 	if gf.Style == "literal" || gf.Style == "folded" {
 		hl = gf.L0 - 1
@@ -671,11 +698,11 @@ func c06EffClasses(gf c06Field, lines []string) []string {
 		}
 		for k := 0; k < len(pre); k++ {
 			if pre[k] >= 0x80 {
-				return c06AddClass(cs, c06Multibyte)
+				return true
 			}
 		}
 	}
-	return cs
+	return false
 }
 
 // c06GuardMap: (rule index, field path) -> the printer claims the field is outside every known-finding class,
@@ -774,9 +801,9 @@ func (c *c06Corr) addDocument(text string, strict bool, guard map[string]bool, r
 	}
 	for _, s := range scalars {
 		minCol := pick(rnd, []int{1, 3, 3, 5, s.Column, s.Column + 2, 7})
-		obs, pan := callNPR(lines, s.Value, s.Line, s.Column, minCol, 0, 0)
-		n := c06NodeObs{id: c.id(), value: s.Value, line: s.Line, col: s.Column, minCol: minCol, obs: obs, panicked: pan}
-		c.remember(n.id, map[string]any{"kind": "scalar-node", "text": text, "value": s.Value, "line": s.Line, "column": s.Column, "minColumn": minCol, "observed": obs})
+		obs, pan := callNPR(lines, s.Value, s.Line, s.Column, s.Style, s.Anchor, minCol, 0, 0)
+		n := c06NodeObs{id: c.id(), value: s.Value, line: s.Line, col: s.Column, block: c06IsBlock(s.Style), anchor: s.Anchor, minCol: minCol, obs: obs, panicked: pan}
+		c.remember(n.id, map[string]any{"kind": "scalar-node", "text": text, "value": s.Value, "line": s.Line, "column": s.Column, "style": int(s.Style), "anchor": s.Anchor, "minColumn": minCol, "observed": obs})
 		nodes = append(nodes, n)
 		rep.hist("corr:yaml-scalar-node")
 	}
@@ -900,17 +927,21 @@ func (c *c06Corr) addCarets(text string, lines []string, pr parser.Rule, rnd *ra
 	rep.hist("corr:caret-line-not-found")
 }
 
+// c06ParserMinColumn: the minColumn parseRule / newYamlMap pass to newYamlNode for every field (continuation lines
+// are scanned from the first column; the leading-space adjustment of NewPositionRange skips the indentation).
+const c06ParserMinColumn = 1
+
 // ruleNodes pairs the yaml parts of one rule mapping with the fields of the parsed rule.
 func (c *c06Corr) ruleNodes(yr c06YRule, pr parser.Rule, text string, ruleIdx int, guard map[string]bool, rep *runReport) (nodes []c06NodeObs, ruleCase string, mapCases []string, ok bool) {
 	parts := parser.VerifUnpackNodesC06(yr.node)
 	var partTerms []string
 	mk := func(n *yaml.Node, minCol int, got *parser.YamlNode, what string) {
-		o := c06NodeObs{id: c.id(), value: n.Value, line: n.Line, col: n.Column, minCol: minCol, offLine: yr.offLine, offCol: yr.offCol, obs: got.Pos}
+		o := c06NodeObs{id: c.id(), value: n.Value, line: n.Line, col: n.Column, block: c06IsBlock(n.Style), anchor: n.Anchor, minCol: minCol, offLine: yr.offLine, offCol: yr.offCol, obs: got.Pos}
 		if guard != nil && guard[fmt.Sprintf("%d|%s", ruleIdx, what)] {
 			o.guard = true
 			rep.hist("corr:field-claimed-inside-theorem-guard")
 		}
-		c.remember(o.id, map[string]any{"kind": "parsed-field", "field": what, "text": text, "value": n.Value, "line": n.Line, "column": n.Column,
+		c.remember(o.id, map[string]any{"kind": "parsed-field", "field": what, "text": text, "value": n.Value, "line": n.Line, "column": n.Column, "style": int(n.Style), "anchor": n.Anchor,
 			"minColumn": minCol, "offsetLine": yr.offLine, "offsetColumn": yr.offCol, "observed": got.Pos})
 		nodes = append(nodes, o)
 	}
@@ -929,8 +960,8 @@ func (c *c06Corr) ruleNodes(yr c06YRule, pr parser.Rule, text string, ruleIdx in
 			if cv.Kind != yaml.ScalarNode || cv.Alias != nil || ck.Alias != nil {
 				return 0, false
 			}
-			mk(ck, key.Column+2, it.Key, fmt.Sprintf("%s/%d/key", name, i/2))
-			mk(cv, ck.Column+2, it.Value, fmt.Sprintf("%s/%d/value", name, i/2))
+			mk(ck, c06ParserMinColumn, it.Key, fmt.Sprintf("%s/%d/key", name, i/2))
+			mk(cv, c06ParserMinColumn, it.Value, fmt.Sprintf("%s/%d/value", name, i/2))
 			items = append(items, "("+coqPrs(it.Key.Pos)+", "+coqPrs(it.Value.Pos)+")")
 		}
 		ml := m.Lines()
@@ -986,7 +1017,7 @@ func (c *c06Corr) ruleNodes(yr c06YRule, pr parser.Rule, text string, ruleIdx in
 		if got == nil || val.Kind != yaml.ScalarNode || val.Alias != nil {
 			return nil, "", nil, false
 		}
-		mk(val, key.Column+2, got, key.Value)
+		mk(val, c06ParserMinColumn, got, key.Value)
 		partTerms = append(partTerms, fmt.Sprintf("(%s, Some %s)", coqZ(int64(val.Line+yr.offLine)), coqZ(int64(linesLast(got.Pos)))))
 	}
 	ruleCase = fmt.Sprintf("CRule %s %s %s", coqN(c.id()), coqList(partTerms), coqZPair(pr.Lines.First, pr.Lines.Last))
@@ -1063,12 +1094,24 @@ func (c *c06Corr) addSynthetic(r *rand.Rand, rep *runReport) {
 		if r.Intn(4) == 0 {
 			offL, offC = r.Intn(20), r.Intn(10)
 		}
-		obs, pan := callNPR(lines, v.String(), line, col, minCol, offL, offC)
+		var style yaml.Style
+		anchor := ""
+		switch r.Intn(8) {
+		case 0, 1:
+			style = pick(r, []yaml.Style{yaml.LiteralStyle, yaml.FoldedStyle, yaml.LiteralStyle | yaml.TaggedStyle})
+			rep.hist("synthetic:block-style")
+		case 2:
+			style = pick(r, []yaml.Style{yaml.DoubleQuotedStyle, yaml.SingleQuotedStyle, yaml.TaggedStyle, yaml.FlowStyle})
+		case 3:
+			anchor = pick(r, []string{"a", "up", "x1", "é", "b c"})
+			rep.hist("synthetic:anchor")
+		}
+		obs, pan := callNPR(lines, v.String(), line, col, style, anchor, minCol, offL, offC)
 		if pan {
 			rep.hist("synthetic:implementation-panicked")
 		}
-		n := c06NodeObs{id: c.id(), value: v.String(), line: line, col: col, minCol: minCol, offLine: offL, offCol: offC, obs: obs, panicked: pan}
-		c.remember(n.id, map[string]any{"kind": "synthetic-node", "lines": lines, "value": v.String(), "line": line, "column": col, "minColumn": minCol,
+		n := c06NodeObs{id: c.id(), value: v.String(), line: line, col: col, block: c06IsBlock(style), anchor: anchor, minCol: minCol, offLine: offL, offCol: offC, obs: obs, panicked: pan}
+		c.remember(n.id, map[string]any{"kind": "synthetic-node", "lines": lines, "value": v.String(), "line": line, "column": col, "style": int(style), "anchor": anchor, "minColumn": minCol,
 			"offsetLine": offL, "offsetColumn": offC, "observed": obs, "panicked": pan})
 		nodes = append(nodes, n)
 		rep.hist("corr:synthetic-node")
@@ -1131,7 +1174,7 @@ func c06Corpus() []c06Doc {
 	return out
 }
 
-var c06KnownClasses = []string{c06AnchorPrefix, c06DqEscape, c06FoldedBlank, c06BlockHeader, c06Shallow, c06TrailSpace, c06LeadingBlank, c06Multibyte}
+var c06KnownClasses = []string{c06DqEscape}
 
 // c06CorpusOracle re-checks a stored witness on the real parser: every field must be non-empty, inside the file and
 // spell its value (and lie in the region given by the sidecar). Files named after a known-finding class are expected
